@@ -13,3 +13,44 @@ package tink
 //@ arith int
 //@ requires s.tinkHeaderLen == 40 && s.css > 56 && s.css <= 1073741824 && off >= 0
 //@ ensures[C16:segment-of-offset] result >= 0 && specSegStart(result, s.css) <= off && off < specSegStart(result+1, s.css)
+
+// The reader accepts exactly the ciphertext lengths tink's writer can produce (a truncated or extended stream whose
+// length is not such a length is rejected up front) and starts with no buffered segment.
+//@ func newSeekableDecryptingReader
+//@ arith int
+//@ requires base >= 0 && base <= 1152921504606846976 && ciphertextSegmentSize <= 1073741824
+//@ ensures[C16:layout-valid] err == nil ==> result != nil && result.pos == 0 && result.segIndex == -1 && specReaderInv(result)
+
+// loadSegment: on success segment j is the buffered, authenticated segment; on failure the reader is unchanged, so a
+// later Read cannot serve bytes of a segment that failed authentication.
+//@ func (*seekableDecryptingReader).loadSegment
+//@ arith int
+//@ requires specReaderInv(s) && 0 <= j && j < s.numSegments && s.base >= 0 && s.base <= 1152921504606846976
+//@ assigns s.segIndex s.segStart s.plaintext s.segBuf
+//@ frame
+//@ ensures[C16:load-ok] err == nil ==> s.segIndex == j && specReaderInv(s)
+//@ ensures[C16:load-failed-unchanged] err != nil ==> s.segIndex == old(s.segIndex) && s.segStart == old(s.segStart) &&
+//@     len(s.plaintext) == old(len(s.plaintext)) && specReaderInv(s)
+
+// Read: copies from the buffered segment at the offset of the current position inside it; io.EOF is only returned at
+// or after the end of the plaintext and only once the final segment (the one that proves the stream was not cut) is the
+// authenticated, buffered one.
+//@ func (*seekableDecryptingReader).Read
+//@ arith int
+//@ requires specReaderInv(s) && s.base >= 0 && s.base <= 1152921504606846976
+//@ assigns s.pos s.segIndex s.segStart s.plaintext s.segBuf
+//@ frame
+//@ ensures[C16:read-inv] specReaderInv(s)
+//@ ensures[C16:read-advances] err == nil ==> result >= 0 && s.pos == old(s.pos) + int64(result) && old(s.pos) < s.plaintextLen &&
+//@     s.segIndex >= 0 && s.segStart <= old(s.pos) && s.pos <= s.segStart + int64(len(s.plaintext))
+//@ ensures[C16:eof-only-after-final-segment] err == io.EOF ==> old(s.pos) >= s.plaintextLen && s.segIndex == s.numSegments-1
+//@ ensures[C16:error-keeps-position] err != nil ==> result == 0 && s.pos == old(s.pos)
+
+//@ func (*seekableDecryptingReader).Seek
+//@ arith int
+//@ requires specReaderInv(s) && offset >= -1152921504606846976 && offset <= 1152921504606846976
+//@ assigns s.pos
+//@ frame
+//@ ensures[C16:seek-inv] specReaderInv(s)
+//@ ensures[C16:seek-position] err == nil ==> result == s.pos && s.pos >= 0 &&
+//@     (whence == 0 ==> s.pos == offset) && (whence == 1 ==> s.pos == old(s.pos) + offset) && (whence == 2 ==> s.pos == s.plaintextLen + offset)
